@@ -1,0 +1,28 @@
+//go:build verif
+
+package kernel
+
+import (
+	"github.com/MixinNetwork/mixin/crypto"
+)
+
+// Verification hooks for C19 (live round validation), in addition to the
+// VerifC19* wrappers of verif_c18.go.  Thin wrappers only: they reach the round
+// index a live round shares with all its Copy()s.
+
+// VerifC19IndexStore records a snapshot hash in the round index, the step
+// Chain.AddSnapshot performs after validateSnapshot(s, true) appended it.
+func (c *CacheRound) VerifC19IndexStore(snap crypto.Hash) {
+	c.index.Store(snap)
+}
+
+// VerifC19IndexCheck is roundIndexCache.Check on the round's index.
+func (c *CacheRound) VerifC19IndexCheck(snap crypto.Hash) bool {
+	return c.index.Check(snap)
+}
+
+// VerifC19SharesIndex tells whether two round objects use the same index, as a
+// live round and its Copy() do.
+func (c *CacheRound) VerifC19SharesIndex(o *CacheRound) bool {
+	return c.index == o.index
+}
